@@ -116,6 +116,8 @@ def data_ids(styles, nums, state, mvr_world=None, test="alpha", cons=None, cards
         cons[c].sample_threshold = t_
         cons[c].sample_size = s_
     cvr_sample = [cards[i] for i in sel]
+    for c_ in cvr_sample:
+        c_.sampled = True  # as consistent_sampling leaves them
     mvr_sample = []
     for i in sel:
         c = cards[i]
